@@ -1,5 +1,6 @@
 import CoxeterVerif.Driver.Proto
 import CoxeterVerif.Model.Mutable
+import CoxeterVerif.Model.Mutable2
 
 namespace OpsC03
 open Mut
@@ -20,6 +21,12 @@ def rdState {α} [Scalar α] [Codec α] (c : Ctx) : Rd (CPState α) := do
   let centroid ← Rd.v3 c
   pure ⟨verts, simplices, faceHead, eqN, eqD, seqN, seqD, volume, area, centroid⟩
 
+def rdM3 {α} [Codec α] (c : Ctx) : Rd (M3 α) := do
+  let xx ← Rd.sc c; let xy ← Rd.sc c; let xz ← Rd.sc c
+  let yx ← Rd.sc c; let yy ← Rd.sc c; let yz ← Rd.sc c
+  let zx ← Rd.sc c; let zy ← Rd.sc c; let zz ← Rd.sc c
+  pure ⟨xx, xy, xz, yx, yy, yz, zx, zy, zz⟩
+
 def outState {α} [Codec α] (s : CPState α) : String :=
   let vs := " ".intercalate (s.verts.map Out.v3)
   let en := " ".intercalate (s.eqN.map Out.v3)
@@ -27,13 +34,17 @@ def outState {α} [Codec α] (s : CPState α) : String :=
   s!"{vs} {en} {Out.scs s.eqD} {sn} {Out.scs s.seqD} {Out.sc s.volume} {Out.sc s.area} {Out.v3 s.centroid}"
 
 /-- driver ops of C03: `cpstate.run <state> <nops> (<opcode> args)*`
-    opcodes: 0 setVolume v | 1 setSurfaceArea v | 2 setRadius current v | 3 setCentroid c(3) -/
+    opcodes: 0 setVolume v | 1 setSurfaceArea v | 2 setRadius current v | 3 setCentroid c(3)
+             | 4 diagonalize P(9) simp' | 5 toHoomd
+    reply: raise log, final state, then what the last `to_hoomd` handed out (vertices, centroid,
+    volume; the initial ones if there was none). Ops for the other classes below. -/
 def run (α : Type) [Scalar α] [Codec α] (op : String) (c : Ctx) : Option (Rd String) :=
   match op with
   | "cpstate.run" => some do
       let s0 : CPState α ← rdState c
       let n ← Rd.nat c
       let mut s := s0
+      let mut hoomd : CPState.Hoomd α := ⟨s0.verts, s0.centroid, s0.volume⟩
       let mut log : List String := []
       for _ in [0:n] do
         let code ← Rd.nat c
@@ -53,11 +64,192 @@ def run (α : Type) [Scalar α] [Codec α] (op : String) (c : Ctx) : Option (Rd 
           match s.setRadius cur v with
           | .ok s' => s := s'; log := log ++ ["i0"]
           | .error _ => log := log ++ ["i1"]
-        else
+        else if code = 3 then
           let cc : V3 α ← Rd.v3 c
           s := s.setCentroid cc
           log := log ++ ["i0"]
-      pure (" ".intercalate log ++ " " ++ outState s)
+        else if code = 4 then
+          -- diagonalize_inertia: raw eigh matrix (row major), the re-oriented simplices
+          let P : M3 α ← rdM3 c
+          let simp' ← Rd.list c (rdTriple c)
+          s := s.diagonalizeInertia P simp'
+          log := log ++ ["i0"]
+        else
+          let r := s.toHoomd
+          hoomd := r.1
+          s := r.2
+          log := log ++ ["i0"]
+      let hv := " ".intercalate (hoomd.vertices.map Out.v3)
+      pure (" ".intercalate log ++ " " ++ outState s ++ " " ++ hv ++ " " ++ Out.v3 hoomd.centroid ++ " "
+        ++ Out.sc hoomd.volume)
+  | "phstate.run" => some do
+      -- <verts> <faces> <eqN> <eqD> <nops> (<opcode> args)*
+      -- opcodes: 0 setVolume v | 1 setSurfaceArea v | 2 setRadius cur v | 3 setCentroid cur c
+      --          4 diagonalize P | 5 toHoomd c0 c1
+      let verts ← Rd.list c (Rd.v3 c)
+      let faces ← Rd.list c (Rd.list c (Rd.nat c))
+      let eqN ← Rd.list c (Rd.v3 c)
+      let eqD ← Rd.list c (Rd.sc c)
+      let mut s : PHState α := ⟨verts, faces, eqN, eqD⟩
+      let mut hoomd : List (V3 α) := verts
+      let n ← Rd.nat c
+      let mut log : List String := []
+      for _ in [0:n] do
+        let code ← Rd.nat c
+        if code = 0 then
+          let v : α ← Rd.sc c
+          match s.setVolume v with
+          | .ok s' => s := s'; log := log ++ ["i0"]
+          | .error _ => log := log ++ ["i1"]
+        else if code = 1 then
+          let v : α ← Rd.sc c
+          match s.setSurfaceArea v with
+          | .ok s' => s := s'; log := log ++ ["i0"]
+          | .error _ => log := log ++ ["i1"]
+        else if code = 2 then
+          let cur : α ← Rd.sc c
+          let v : α ← Rd.sc c
+          match s.setRadius cur v with
+          | .ok s' => s := s'; log := log ++ ["i0"]
+          | .error _ => log := log ++ ["i1"]
+        else if code = 3 then
+          let cur : V3 α ← Rd.v3 c
+          let cc : V3 α ← Rd.v3 c
+          s := s.setCentroid cur cc
+          log := log ++ ["i0"]
+        else if code = 4 then
+          let P : M3 α ← rdM3 c
+          s := s.diagonalizeInertia P
+          log := log ++ ["i0"]
+        else
+          let c0 : V3 α ← Rd.v3 c
+          let c1 : V3 α ← Rd.v3 c
+          let r := s.toHoomd c0 c1
+          hoomd := r.1
+          s := r.2
+          log := log ++ ["i0"]
+      let vs := " ".intercalate (s.verts.map Out.v3)
+      let en := " ".intercalate (s.eqN.map Out.v3)
+      let hv := " ".intercalate (hoomd.map Out.v3)
+      pure (" ".intercalate log ++ s!" {vs} {en} {Out.scs s.eqD} {Out.sc s.volume} {Out.sc s.surfaceArea} {hv}")
+  | "pgstate.run" => some do
+      -- <verts> <normal> <nops> ops; opcodes: 0 setArea v | 1 setPerimeter v | 2 setRadius cur v
+      --   | 3 setCentroid cur c | 4 toHoomd c0 c1
+      let verts ← Rd.list c (Rd.v3 c)
+      let normal : V3 α ← Rd.v3 c
+      let mut s : PGState α := ⟨verts, normal⟩
+      let mut hoomd : List (V3 α) := verts
+      let n ← Rd.nat c
+      let mut log : List String := []
+      for _ in [0:n] do
+        let code ← Rd.nat c
+        if code = 0 then
+          let v : α ← Rd.sc c
+          match s.setArea v with
+          | .ok s' => s := s'; log := log ++ ["i0"]
+          | .error _ => log := log ++ ["i1"]
+        else if code = 1 then
+          let v : α ← Rd.sc c
+          match s.setPerimeter v with
+          | .ok s' => s := s'; log := log ++ ["i0"]
+          | .error _ => log := log ++ ["i1"]
+        else if code = 2 then
+          let cur : α ← Rd.sc c
+          let v : α ← Rd.sc c
+          match s.setRadius cur v with
+          | .ok s' => s := s'; log := log ++ ["i0"]
+          | .error _ => log := log ++ ["i1"]
+        else if code = 3 then
+          let cur : V3 α ← Rd.v3 c
+          let cc : V3 α ← Rd.v3 c
+          s := s.setCentroid cur cc
+          log := log ++ ["i0"]
+        else
+          let c0 : V3 α ← Rd.v3 c
+          let c1 : V3 α ← Rd.v3 c
+          let r := s.toHoomd c0 c1
+          hoomd := r.1
+          s := r.2
+          log := log ++ ["i0"]
+      let vs := " ".intercalate (s.verts.map Out.v3)
+      let hv := " ".intercalate (hoomd.map Out.v3)
+      pure (" ".intercalate log ++ s!" {vs} {Out.v3 s.normal} {Out.sc s.area} {Out.sc s.perimeter} {hv}")
+  | "spgstate.run" => some do
+      -- <verts> <normal> <radius> <nops> ops; opcodes: 0 setRadius v | 1 setArea v | 2 setPerimeter v
+      --   | 3 toHoomd c0 c0'
+      let verts ← Rd.list c (Rd.v3 c)
+      let normal : V3 α ← Rd.v3 c
+      let radius : α ← Rd.sc c
+      let mut s : SPGState α := ⟨⟨verts, normal⟩, radius⟩
+      let mut hoomd : List (V3 α) := verts
+      let n ← Rd.nat c
+      let mut log : List String := []
+      for _ in [0:n] do
+        let code ← Rd.nat c
+        if code = 0 then
+          let v : α ← Rd.sc c
+          match s.setRadiusAbs v with
+          | .ok s' => s := s'; log := log ++ ["i0"]
+          | .error _ => log := log ++ ["i1"]
+        else if code = 1 then
+          let v : α ← Rd.sc c
+          match s.setArea v with
+          | .ok s' => s := s'; log := log ++ ["i0"]
+          | .error _ => log := log ++ ["i1"]
+        else if code = 2 then
+          let v : α ← Rd.sc c
+          match s.setPerimeter v with
+          | .ok s' => s := s'; log := log ++ ["i0"]
+          | .error _ => log := log ++ ["i1"]
+        else
+          let c0 : V3 α ← Rd.v3 c
+          let c0' : V3 α ← Rd.v3 c
+          let r := s.toHoomd c0 c0'
+          hoomd := r.1
+          s := r.2
+          log := log ++ ["i0"]
+      let vs := " ".intercalate (s.core.verts.map Out.v3)
+      let hv := " ".intercalate (hoomd.map Out.v3)
+      pure (" ".intercalate log ++
+        s!" {vs} {Out.v3 s.core.normal} {Out.sc s.radius} {Out.sc s.area} {Out.sc s.perimeter} {hv}")
+  | "sphstate.run" => some do
+      -- <cpstate> <radius> <h> <nops> ops; opcodes: 0 setRadius v | 1 setSize degree cur v | 2 toHoomd
+      -- `h` = mean curvature of the core at the END of the history (for the Steiner forms printed last)
+      let core : CPState α ← rdState c
+      let radius : α ← Rd.sc c
+      let h : α ← Rd.sc c
+      let mut s : SPHState α := ⟨core, radius⟩
+      let mut hoomd : CPState.Hoomd α := ⟨core.verts, core.centroid, core.volume⟩
+      let n ← Rd.nat c
+      let mut log : List String := []
+      for _ in [0:n] do
+        let code ← Rd.nat c
+        if code = 0 then
+          let v : α ← Rd.sc c
+          match s.setRadiusAbs v with
+          | .ok s' => s := s'; log := log ++ ["i0"]
+          | .error _ => log := log ++ ["i1"]
+        else if code = 1 then
+          let deg ← Rd.nat c
+          let cur : α ← Rd.sc c
+          let v : α ← Rd.sc c
+          match s.setSize deg cur v with
+          | .ok s' => s := s'; log := log ++ ["i0"]
+          | .error _ => log := log ++ ["i1"]
+        else
+          let r := s.toHoomd
+          hoomd := r.1
+          s := r.2
+          log := log ++ ["i0"]
+      let hv := " ".intercalate (hoomd.vertices.map Out.v3)
+      pure (" ".intercalate log ++ " " ++ outState s.core ++ " " ++ Out.sc s.radius ++ " "
+        ++ Out.sc (s.steinerVolume h) ++ " " ++ Out.sc (s.steinerArea h) ++ " " ++ Out.sc (s.steinerCurvature h)
+        ++ " " ++ hv)
+  | "rot.fix" => some do
+      -- in: P (9) ; out: det P, fixHanded P (9), det of it
+      let P : M3 α ← rdM3 c
+      let Q := fixHanded P
+      pure s!"{Out.sc (mdet P)} {Out.m3 Q} {Out.sc (mdet Q)}"
   | _ => none
 
 end OpsC03
